@@ -22,8 +22,8 @@ EXPLANATION = (
     '(Kahn order, least fixed point of the skip rule, written independently) is a formula over the still-symbolic '
     'booleans; one more query per shard proves that the explored path conditions cover the whole bounded input '
     'space. Bounded: quick N=3 jobs (all 3^6 x 2^3 dependency shapes), thorough additionally N=3 with both-kind '
-    'edges and always_run-before-command and N=4 with at most 6 edges+self-loops in total (every DAG on 4 jobs '
-    'has at most 6 edges). Counterexamples are solver models replayed concretely on the real code.'
+    'edges and always_run-before-command and N=4 with at most 6 dependency edges, no self-dependency and one mention flavour per '
+    'pipeline (every DAG on 4 jobs has at most 6 edges). Counterexamples are solver models replayed concretely on the real code.'
 )
 SRC_BATCH = 'hail/python/hailtop/batch/batch.py'
 SRC_BACKEND = 'hail/python/hailtop/batch/backend.py'
@@ -49,7 +49,7 @@ def _configs(tier):
         return [dict(tag='N3', N=3, kinds=[0, 1, 2], aro=[0], max_edges=None, nfix=3, deadline_s=150)]
     return [
         dict(tag='N3', N=3, kinds=[0, 1, 2, 3], aro=[0, 1], max_edges=None, nfix=3, deadline_s=1200),
-        dict(tag='N4', N=4, kinds=[0, 1, 2], aro=[0], max_total=6, nfix=4, deadline_s=1300),
+        dict(tag='N4', N=4, kinds=[0, 1, 2], aro=[0], max_edges=6, max_self=0, global_flavour=True, nfix=4, deadline_s=1300),
     ]
 
 
@@ -62,7 +62,8 @@ def _shards(cfg):
     out = []
     for f in fixes:
         out.append(dict(N=N, kinds=cfg['kinds'], aro=cfg['aro'], max_edges=cfg.get('max_edges'),
-                        max_total=cfg.get('max_total'), fix=f, deadline_s=cfg['deadline_s'], tag=cfg['tag']))
+                        max_total=cfg.get('max_total'), max_self=cfg.get('max_self'),
+                        global_flavour=cfg.get('global_flavour', False), fix=f, deadline_s=cfg['deadline_s'], tag=cfg['tag']))
     return out
 
 
